@@ -20,7 +20,7 @@ EXPLANATION = (
     "+ spacing fit the budget unless it holds <= 2 labels."
 )
 BOUNDS = {
-    "quick": dict(labels="1..3 (4 for algorithm overlap, fresh engine)", value_box="positions in [-20,130], widths in (0,80], spacing in [0,10]", grid="bounds {(0,100),(None,100),(0,None)}, density 0.85, stubWidth 1; histories fresh/reconf/engine2/stale/subset"),
+    "quick": dict(labels="1..3 (4 for algorithm overlap, fresh engine)", value_box="positions in [-20,130], widths in (0,80], spacing in [0,10]", grid="bounds {(0,100),(None,100),(0,None)}, density 0.85, stubWidth 1; histories fresh/reconf/engine2/stale/subset/interleaved (two engines alive, the first used after the second was configured)"),
     "thorough": dict(labels="1..3 over the whole grid, 4 for overlap/simple, 5 for overlap on (0,100)", grid="bounds {(0,100),(None,100),(0,None),(-30,45),(0,60)}, density {0.85,0.5,1}, stubWidth {0,1,5}, all histories for 2-3 labels"),
 }
 OUTSIDE = ["roundRobin (returns [] - not in the property's algorithm set)", "more than 5 labels", "zero-width labels (null interval)", "symbolic layer width / density (concrete grid instead)"]
